@@ -25,7 +25,7 @@ func encodeCase(e []byte, l int) map[string]interface{} {
 
 // C01: NewMnemonicByEntropy == reference encoder, string equality.
 func runC01(c *Ctx) {
-	c.res.Rule = "entropy scopes E_win/E_ham/E_run/E_blk/E_cs (DESIGN 2.4) x 10 languages; one evaluation = one NewMnemonicByEntropy call compared (string equality) with the bit-array reference encoder over golden lists; distinct_nontrivial = number of distinct entropies (all are valid-size inputs that exercise the full encoder)"
+	c.res.Rule = "entropy scopes E_win/E_ham/E_run/E_per/E_blk/E_cs (DESIGN 2.4) x 10 languages; one evaluation = one NewMnemonicByEntropy call compared (string equality) with the bit-array reference encoder over golden lists; distinct_nontrivial = number of distinct entropies (all are valid-size inputs that exercise the full encoder)"
 	c.Assume("golden lists are canonical (digests pinned, english digest independently known)", "Go stdlib crypto/sha256")
 	c.entScopes(func(e []byte) {
 		keep := append([]byte(nil), e...)
@@ -50,7 +50,7 @@ func runC01(c *Ctx) {
 
 // C02: every generated / reference-valid sentence validates.
 func runC02(c *Ctx) {
-	c.res.Rule = "entropy scopes x 10 languages; per (entropy, language): CheckMnemonic and IsMnemonicValid on (a) the implementation's own NewMnemonicByEntropy output and (b) the reference sentence joined by U+0020 and (c) by U+3000; plus NewMnemonic through a scripted source for 5 counts x 10 languages x 64 byte patterns; distinct_nontrivial = distinct entropies"
+	c.res.Rule = "entropy scopes x 10 languages; per (entropy, language): CheckMnemonic and IsMnemonicValid on (a) the implementation's own NewMnemonicByEntropy output and (b) the reference sentence joined by U+0020 and (c) by U+3000; plus NewMnemonic through a scripted source for 5 counts x 10 languages x 64 byte patterns; plus a valid sentence validated right after each of 7 kinds of failing validation; distinct_nontrivial = distinct entropies"
 	c.Assume("golden lists are canonical", "only canonical single-separator sentences are demanded to validate")
 	var leadZero [3]int64
 	var lzMu sync.Mutex
@@ -133,6 +133,56 @@ func runC02(c *Ctx) {
 		}
 	}
 	c.AddScope("NewMnemonic scripted source 5 counts x 10 languages x 64 patterns", n, true, "")
+	// (c) a valid sentence right after a failing validation (sequentially, same goroutine): the
+	// failure must leave nothing behind that makes the valid one fail
+	var nAfter int64
+	for l := 0; l < ref.NLang; l++ {
+		for _, L := range enum.EntLens {
+			for _, e := range enum.Rep(L)[:4] {
+				words := c.M.Words(e, l)
+				valid := strings.Join(words, " ")
+				var fails []string
+				for _, p := range []int{0, 1, len(words) / 2, len(words) - 1} {
+					t := append([]string(nil), words...)
+					t[p] = "zz" + t[p]
+					fails = append(fails, strings.Join(t, " "))
+				}
+				t := append([]string(nil), words...)
+				t[len(t)-1] = c.M.List[l][(c.M.Dict[l][t[len(t)-1]]+1)%2048]
+				fails = append(fails, strings.Join(t, " "), strings.Join(words[:len(words)-1], " "), "")
+				for _, f := range fails {
+					_ = bip39.CheckMnemonic(f, Langs[l])
+					err := bip39.CheckMnemonic(valid, Langs[l])
+					c.Eval(2)
+					nAfter++
+					if err != nil {
+						c.Violate(fmt.Sprintf("checkafter:%s:%s:%d", hs(f), hs(valid), l),
+							fmt.Sprintf("valid sentence %q (%s) rejected (%v) right after the failing validation of %q", valid, ref.LangNames[l], err, f),
+							map[string]interface{}{"kind": "checkafter", "first": hs(f), "sentence": hs(valid), "lang": l})
+					}
+				}
+			}
+		}
+	}
+	c.AddScope("valid sentence right after each of 7 kinds of failing validation (sequential)", nAfter, true, "")
+	// (d) sentences made of the longest / shortest list words (where any size limit bites first)
+	var nExt int64
+	for l := 0; l < ref.NLang; l++ {
+		for _, t := range extremeSentences(c.M, l) {
+			for _, sep := range []string{" ", "\u3000"} {
+				sent := strings.Join(t, sep)
+				err := bip39.CheckMnemonic(sent, Langs[l])
+				c.Eval(1)
+				nExt++
+				if err != nil || !bip39.IsMnemonicValid(sent, Langs[l]) {
+					c.Violate(fmt.Sprintf("check:%s:%d", hs(sent), l),
+						fmt.Sprintf("valid sentence of extreme-length words (%d bytes, %s) rejected: %v", len(sent), ref.LangNames[l], err),
+						map[string]interface{}{"kind": "check", "sentence": hs(sent), "lang": l, "expect": "valid"})
+				}
+			}
+		}
+	}
+	c.AddScope("sentences of the longest (bytes, code points) and shortest words, 5 counts x 10 languages x 2 separators", nExt, true, "")
 	z := make([]byte, 16)
 	c.Sample(3, map[string]interface{}{"sentence": c.M.Encode(z, 2), "lang": "English", "entropy": hx(z)})
 	o := bytes.Repeat([]byte{0xFF}, 32)
